@@ -114,14 +114,22 @@ Definition order_for (v : las_version) (k : skind) (m : list N) : item_order :=
       end
   end.
 
-Definition strip_brackets (x : list N) : list N :=
-  let x := strip x in
-  match x with
-  | a :: _ :: _ =>
-      let z := last x 0 in
-      if ((a =? 91) && (z =? 93)) || ((a =? 40) && (z =? 41)) then removelast (tl x) else x
-  | _ => x
+(* SectionParser.strip_brackets: x = x.strip(); a bracketed text of two or more characters loses its outer pair and is
+   stripped again (the recursive call; lasio fix b7a2e2d).  The length drops by at least two per call, so the fuel
+   S (length x) is never used up (Proofs/StripBracketsFacts.v: sbf_more, strip_brackets_unfold). *)
+Fixpoint strip_brackets_fuel (n : nat) (x : list N) : list N :=
+  match n with
+  | O => x
+  | S n =>
+      let y := strip x in
+      match y with
+      | a :: _ :: _ =>
+          let z := last y 0 in
+          if ((a =? 91) && (z =? 93)) || ((a =? 40) && (z =? 41)) then strip_brackets_fuel n (removelast (tl y)) else y
+      | _ => y
+      end
   end.
+Definition strip_brackets (x : list N) : list N := strip_brackets_fuel (S (List.length x)) x.
 
 Definition is_number_string (name : list N) : bool :=
   let u := upper name in str_eqb u (s2l "API") || str_eqb u (s2l "UWI").
